@@ -41,6 +41,11 @@ func (s *SimSink) WritePacket(p *packet.Packet) (int, error) {
 		case "short":
 			s.ctx.Fault("sink_short_count")
 			return s.Plan.ShortN, nil
+		case "errfull":
+			// fails, yet reports the packet as consumed (the library's own Accumulator does that)
+			s.ctx.Fault("sink_write_err_full_count")
+			s.Err = &InjectedErr{ID: 1000 + i}
+			return len(p), s.Err
 		default:
 			s.ctx.Fault("sink_write_err")
 			s.Err = &InjectedErr{ID: 1000 + i}
